@@ -245,6 +245,7 @@ def check(ctx):
         "read_set_min_max": [min(rs), max(rs)] if rs else [],
         "k_completed": 1 if quick else 2,
     }
+    cov.update(bee.vacuity(agg))
     return {"level": LEVEL, "coverage": cov,
             "assumptions": ["independent lexer mc/lex/cfamily.py (self-checked on every generated expression)",
                             "an option the base run never reads cannot change the run (Option<T>::operator() is the only read path)"]}
